@@ -191,7 +191,20 @@ class Exec:
         if isinstance(v, core.VRec):
             return z3.BoolVal(len(v.items) > 0)
         if isinstance(v, VJson):
-            raise Unsupported("truth value of a json value")
+            # python truthiness of a decoded JSON value: None, False, 0, "", [] and {} are false
+            from . import jsonmodel as JM
+
+            t = v.t
+            nonempty_obj = z3.Function("jobj_nonempty", core.Json, z3.BoolSort())(t)
+            return z3.If(
+                JM.jtag(t) == JM.NULL,
+                z3.BoolVal(False),
+                z3.If(
+                    JM.jtag(t) == JM.BOOL,
+                    JM.jbool(t),
+                    z3.If(JM.jtag(t) == JM.NUM, JM.jnum(t) != 0, z3.If(JM.jtag(t) == JM.STR, JM.jstr(t) != core.strlit(""), z3.If(JM.jtag(t) == JM.ARR, JM.jlen(t) > 0, nonempty_obj))),
+                ),
+            )
         if isinstance(v, (VChild, VClass, VFunc, VBuiltin, VLambda)):
             return z3.BoolVal(True)
         if isinstance(v, VObj):
